@@ -8,7 +8,10 @@ package c02
 import (
 	"fmt"
 	"os"
+	"path/filepath"
+	"strconv"
 	"strings"
+	"verifharness/copyh"
 
 	"github.com/influxdata/influxdb/models"
 	"verifharness/fw"
@@ -389,10 +392,14 @@ func RunOps(ops []string) []string {
 	dir, _ := os.MkdirTemp(shardh.WorkDir("shard"), "s-")
 	defer os.RemoveAll(dir)
 	var h *shardh.H
+	var ce *copyh.Env
 	defer func() {
 		if h != nil {
 			h.Close()
 			h.Cleanup()
+		}
+		if ce != nil {
+			ce.Close()
 		}
 	}()
 	out := make([]string, len(ops))
@@ -422,6 +429,28 @@ func RunOps(ops []string) []string {
 			out[i] = valueOp(f)
 			continue
 		}
+		if f[0] == "creset" {
+			if ce != nil {
+				ce.Close()
+			}
+			cdir := filepath.Join(dir, fmt.Sprintf("copy%d", i))
+			var err error
+			ce, err = copyh.New(cdir, f[1])
+			if err != nil {
+				out[i] = "err:" + strings.ReplaceAll(err.Error(), " ", "_")
+				return out
+			}
+			out[i] = "ok"
+			continue
+		}
+		if f[0] == "cw" || f[0] == "csnap" || f[0] == "cdel" || f[0] == "copy" {
+			if ce == nil {
+				out[i] = "bad-op"
+				continue
+			}
+			out[i] = copyStep(ce, f)
+			continue
+		}
 		if h == nil {
 			out[i] = "bad-op"
 			continue
@@ -429,6 +458,26 @@ func RunOps(ops []string) []string {
 		out[i] = h.Step(op)
 	}
 	return out
+}
+
+func copyStep(ce *copyh.Env, f []string) (out string) {
+	defer func() {
+		if r := recover(); r != nil {
+			out = "panic:" + strings.ReplaceAll(fmt.Sprint(r), " ", "_")
+		}
+	}()
+	i64 := func(s string) int64 { v, _ := strconv.ParseInt(s, 10, 64); return v }
+	switch f[0] {
+	case "cw":
+		return ce.Write(f[1])
+	case "csnap":
+		return ce.Snapshot()
+	case "cdel":
+		return ce.Delete(f[1], i64(f[2]), i64(f[3]))
+	case "copy":
+		return ce.Copy(f[1], strings.Split(f[2], ";"), strings.Split(f[3], ","))
+	}
+	return "bad-op"
 }
 
 func (Prop) RunImpl(c fw.Case) []string { return RunOps(c.Ops) }
